@@ -147,6 +147,7 @@ type walWrap struct {
 	path       string // head file
 	headSynced int64
 	headIdx    int
+	syncs      int
 }
 
 func (w *walWrap) headSize() int64 {
@@ -170,6 +171,7 @@ func (w *walWrap) noteSync() {
 	w.n.mu.Lock()
 	w.headSynced = sz
 	w.headIdx = idx
+	w.syncs++
 	w.n.mu.Unlock()
 }
 
@@ -355,6 +357,12 @@ type simNode struct {
 	skew    time.Duration
 	lastHeight int64
 	startFails int
+	bootHeight     int64
+	walPoisoned    bool
+	poisonIdx      int
+	noMarkerAtBoot bool // this incarnation started although its WAL lacked the marker of the previous height
+	repairedAtBoot bool // this incarnation went through OnStart's WAL repair (which replays the WAL twice)
+	durable    *rsSummary // round state as of the last event that ended with an acknowledged WAL sync
 }
 
 func (n *simNode) point(label string) { n.ctl.Point(label) }
@@ -495,6 +503,17 @@ func (n *simNode) boot() {
 		n.mu.Unlock()
 	}()
 	config := n.config()
+	if debugLog {
+		dumpWAL(n)
+	}
+	// durable heights before the handshake touches anything
+	storeAhead := false
+	{
+		bs := store.NewBlockStore(simdisk.NewCrashDB("ro", n.image["blockstore"], nil))
+		if st, err := sm.NewStore(simdisk.NewCrashDB("ro", n.image["state"], nil), sm.StoreOptions{}).Load(); err == nil {
+			storeAhead = bs.Height() > 0 && bs.Height() > st.LastBlockHeight
+		}
+	}
 	fpv := privval.LoadFilePV(n.keyFile(), n.stateFile())
 	n.pv = &pvWrap{n: n, inner: fpv}
 	nodeKey := &p2p.NodeKey{PrivKey: ed25519.GenPrivKeyFromSecret([]byte("nodekey-" + n.name))}
@@ -540,9 +559,40 @@ func (n *simNode) boot() {
 	if w := n.cs.VerifWAL(); w != cs.WAL(n.wal) {
 		// the repair path of OnStart replaced the WAL by a fresh BaseWAL: wrap it again
 		s.env.Count("probe.wal_repair_on_start")
+		n.repairedAtBoot = true
 		n.wal = &walWrap{n: n, inner: w, path: n.walFile()}
 		n.wal.noteSync()
 		n.cs.VerifSetWAL(n.wal)
+	}
+	// Does the WAL hold the end-of-height marker that the next catchup replay will look for?
+	{
+		st := n.cs.GetState()
+		prev := st.LastBlockHeight
+		if n.cs.GetRoundState().Height == st.InitialHeight {
+			prev = 0
+		}
+		rd, found, err := n.wal.inner.SearchForEndHeight(prev, &cs.WALSearchOptions{IgnoreDataCorruptionErrors: true})
+		if rd != nil {
+			rd.Close()
+		}
+		n.noMarkerAtBoot = err == nil && !found
+		n.bootHeight = n.cs.GetRoundState().Height
+		if n.noMarkerAtBoot && storeAhead {
+			// the block was saved, its #ENDHEIGHT never became durable: from here on the WAL of
+			// this node cannot be searched (known finding) until its head rotates
+			n.walPoisoned = true
+			n.poisonIdx = n.wal.groupIdx()
+			s.env.Count("probe.endheight_marker_lost_by_crash")
+		} else if n.walPoisoned && !n.noMarkerAtBoot {
+			n.walPoisoned = false
+		}
+		if n.noMarkerAtBoot {
+			s.env.Count("probe.boot_without_endheight_marker")
+		}
+	}
+	if debugLog {
+		rs := n.cs.GetRoundState()
+		fmt.Fprintf(os.Stderr, "BOOTED %s at %d/%d/%d locked=%d\n", n.name, rs.Height, rs.Round, rs.Step, rs.LockedRound)
 	}
 	n.mu.Lock()
 	n.alive = true
@@ -555,6 +605,7 @@ func (n *simNode) start() {
 	n.ctl = &simdisk.Ctl{OnPoint: n.onPoint}
 	n.dbs = map[string]*simdisk.CrashDB{}
 	n.failure, n.exited, n.crashed = "", "", nil
+	n.repairedAtBoot, n.noMarkerAtBoot = false, false
 	n.starting = true
 	n.alive = false
 	n.nd, n.cs, n.ticker, n.wal, n.pv = nil, nil, nil, nil, nil
@@ -617,6 +668,9 @@ func (n *simNode) finishCrash(op simcore.Op) {
 		if keep < int64(len(head)) {
 			n.sim.env.Count("fault.wal_torn_tail")
 		}
+		if debugLog {
+			fmt.Fprintf(os.Stderr, "CRASH %s at=%s hs=%d headlen=%d keep=%d files=%d\n", n.name, ci.label, hs, len(head), keep, len(ci.wal))
+		}
 		head = append([]byte{}, head[:keep]...)
 		if gl := op.Int("wal_garb"); gl > 0 && keep > hs {
 			at := hs + int64(op.Int("wal_garb_at"))%(keep-hs)
@@ -660,4 +714,41 @@ func (n *simNode) isAlive() bool {
 	n.mu.Lock()
 	defer n.mu.Unlock()
 	return n.alive && n.crashed == nil && n.failure == "" && n.exited == ""
+}
+
+func dumpWAL(n *simNode) {
+	dir := filepath.Dir(n.walFile())
+	ents, _ := os.ReadDir(dir)
+	var names []string
+	for _, e := range ents {
+		names = append(names, e.Name())
+	}
+	sort.Strings(names)
+	if len(names) == 0 {
+		return
+	}
+	// rotated files sort after "wal" lexicographically ("wal.000"); print head last
+	order := append(append([]string{}, names[1:]...), names[0])
+	for _, name := range order {
+		f, err := os.Open(filepath.Join(dir, name))
+		if err != nil {
+			continue
+		}
+		dec := cs.NewWALDecoder(f)
+		fmt.Fprintf(os.Stderr, "WALDUMP %s file %s:\n", n.name, name)
+		for {
+			m, err := dec.Decode()
+			if err != nil {
+				fmt.Fprintf(os.Stderr, "   -- %v\n", err)
+				break
+			}
+			switch x := m.Msg.(type) {
+			case cs.VerifMsgInfo:
+				fmt.Fprintf(os.Stderr, "   msg %T peer=%q %v\n", x.Msg, x.PeerID, x.Msg)
+			default:
+				fmt.Fprintf(os.Stderr, "   %T %v\n", x, x)
+			}
+		}
+		f.Close()
+	}
 }
